@@ -340,7 +340,7 @@ func init() {
 				var cs []fw.Case
 				n := 400
 				if !ctx.Quick {
-					n = 2500
+					n = 20000
 				}
 				for i := 0; i < n; i++ {
 					cs = append(cs, fw.Case{ID: fmt.Sprintf("proof/%d", i), Kind: "proof", P: map[string]any{"i": i}})
@@ -349,14 +349,14 @@ func init() {
 				}
 				np := 40
 				if !ctx.Quick {
-					np = 600
+					np = 4000
 				}
 				for i := 0; i < np; i++ {
 					cs = append(cs, fw.Case{ID: fmt.Sprintf("pair/%d", i), Kind: "pair", P: map[string]any{"i": i}})
 				}
 				reps := 2
 				if !ctx.Quick {
-					reps = 12
+					reps = 40
 				}
 				for _, c := range c19Corruptions() {
 					for k := 0; k < reps; k++ {
@@ -381,6 +381,32 @@ func init() {
 					pwi, refused, msg := readProofGuard(path)
 					if refused {
 						return fw.Violate("wellformed_document_refused", "proof document "+c.ID+": "+msg)
+					}
+					// the web API reads the same documents from request bodies: same result required
+					if raw, err := os.ReadFile(path); err == nil {
+						var p2 variables.ProofWithPublicInputs
+						ok2 := true
+						func() {
+							defer func() {
+								if rr := recover(); rr != nil {
+									ok2 = false
+								}
+							}()
+							p2, _ = variables.DeserializeProofWithPublicInputs(types.ReadProofWithPublicInputsFromRequest(raw))
+						}()
+						if !ok2 {
+							return fw.Violate("wellformed_document_refused", "proof document read from a request body: "+c.ID)
+						}
+						la, lb := circ.Leaves(&pwi), circ.Leaves(&p2)
+						if len(la) != len(lb) {
+							return fw.Violate("request_reader_differs_from_file_reader", c.ID)
+						}
+						for i := range la {
+							if la[i].Path != lb[i].Path || la[i].Big().Cmp(lb[i].Big()) != 0 {
+								return fw.Violate("request_reader_differs_from_file_reader", la[i].Path)
+							}
+						}
+						o.Inc("request_reader_agrees")
 					}
 					ls := circ.Leaves(&pwi)
 					o.Events += len(ls)
